@@ -290,3 +290,180 @@ def build_T17(tree):
 
 
 TARGETS = {'T17': {'file': 'sr/coding.py', 'build': build_T17}}
+
+
+# ---------------------------------------------------------------------------------------------------------------
+# pydicom's own `Code` (translated, not trusted): /venv/.../pydicom/sr/coding.py and _snomed_dict.py
+def _pydicom_dir():
+    import importlib.util
+    spec = importlib.util.find_spec('pydicom')
+    if spec is None or not spec.submodule_search_locations:
+        raise Unsupported('pydicom not importable')
+    import os
+    return os.path.join(list(spec.submodule_search_locations)[0], 'sr')
+
+
+_FIELD = {'value': 'value', 'scheme_designator': 'scheme', 'meaning': 'meaning', 'scheme_version': 'version'}
+
+_PREAMBLE = '''/-- pydicom `Code` named tuple; any field may hold `None` -/
+structure PCode where
+  value : Option String
+  scheme : Option String
+  meaning : Option String
+  version : Option String
+  deriving DecidableEq, Repr
+
+/-- `x in snomed_mapping[s]` (a `None` is in no dictionary) -/
+def dictHas (mapping : String → String → Option String) (s : String) (x : Option String) : Bool :=
+  match x with
+  | some v => (mapping s v).isSome
+  | none => false
+
+/-- `snomed_mapping[s][x]` -/
+def dictGet (mapping : String → String → Option String) (s : String) (x : Option String) : Option String :=
+  match x with
+  | some v => mapping s v
+  | none => none'''
+
+
+def build_T17p(_tree):
+    import os
+    path = os.path.join(_pydicom_dir(), 'coding.py')
+    tree = ast.parse(open(path).read())
+    eq = find_func(tree, 'Code.__eq__')
+    body = strip_doc(eq.body)
+    reads = {'self': [], 'other': []}
+    schemes = []
+
+    def ex(n):
+        if isinstance(n, ast.Attribute) and isinstance(n.value, ast.Name):
+            base = n.value.id
+            if n.attr not in _FIELD:
+                raise Unsupported(f'pydicom Code.__eq__: unknown field {n.attr}')
+            if base in ('self', 'other'):
+                if n.attr not in reads[base]:
+                    reads[base].append(n.attr)
+                return f'{base}.{_FIELD[n.attr]}'
+            if base in ('self_mapped', 'other_mapped'):
+                return f'{base}.{_FIELD[n.attr]}'
+            raise Unsupported(f'pydicom Code.__eq__: attribute of {base}')
+        if isinstance(n, ast.Constant) and isinstance(n.value, str):
+            return f'(some {_s(n.value)})'
+        if isinstance(n, ast.Constant) and n.value is None:
+            return '(none : Option String)'
+        if isinstance(n, ast.Compare) and len(n.ops) == 1:
+            if isinstance(n.ops[0], ast.Eq):
+                return f'({ex(n.left)} == {ex(n.comparators[0])})'
+            if isinstance(n.ops[0], ast.In):
+                c = n.comparators[0]
+                if isinstance(c, ast.Subscript) and ast.unparse(c.value) == 'snomed_mapping' and isinstance(c.slice, ast.Constant):
+                    schemes.append(c.slice.value)
+                    return f'(dictHas mapping {_s(c.slice.value)} {ex(n.left)})'
+        if isinstance(n, ast.Subscript) and isinstance(n.value, ast.Subscript) and ast.unparse(n.value.value) == 'snomed_mapping' \
+                and isinstance(n.value.slice, ast.Constant):
+            schemes.append(n.value.slice.value)
+            return f'(dictGet mapping {_s(n.value.slice.value)} {ex(n.slice)})'
+        if isinstance(n, ast.BoolOp) and isinstance(n.op, ast.And):
+            return '(' + ' && '.join(ex(v) for v in n.values) + ')'
+        if isinstance(n, ast.Call) and ast.unparse(n.func) == 'Code' and not n.args:
+            kw = {k.arg: ex(k.value) for k in n.keywords}
+            if set(kw) != set(_FIELD):
+                raise Unsupported('pydicom Code.__eq__: Code(...) without all four keywords')
+            return ('({ value := ' + kw['value'] + ', scheme := ' + kw['scheme_designator'] + ', meaning := ' + kw['meaning'] +
+                    ', version := ' + kw['scheme_version'] + ' } : PCode)')
+        raise Unsupported('pydicom Code.__eq__: expression outside the fragment: ' + ast.unparse(n)[:70])
+    lines = []
+    for st in body:
+        if isinstance(st, ast.If):
+            if len(st.body) != 1 or len(st.orelse) != 1 or not isinstance(st.body[0], ast.Assign) or not isinstance(st.orelse[0], ast.Assign) \
+                    or ast.unparse(st.body[0].targets[0]) != ast.unparse(st.orelse[0].targets[0]):
+                raise Unsupported('pydicom Code.__eq__: mapping block changed shape')
+            name = ast.unparse(st.body[0].targets[0])
+            lines.append(f'  let {name} : PCode := if {ex(st.test)} then {ex(st.body[0].value)} else {ex(st.orelse[0].value)}')
+        elif isinstance(st, ast.Return):
+            lines.append('  ' + ex(st.value))
+        else:
+            raise Unsupported('pydicom Code.__eq__: unexpected statement ' + ast.unparse(st)[:60])
+    out = [_PREAMBLE]
+    out.append('/-- pydicom `Code.__eq__(self, other)` with the attribute values of `other` already read; `mapping s v` is '
+               '`snomed_mapping[s].get(v)` -/\n'
+               'def pydCodeEq (mapping : String → String → Option String) (self other : PCode) : Bool :=\n' + '\n'.join(lines))
+    out.append(lean_table('pydEqOtherReads', 'List String', [_s(a) for a in reads['other']],
+                          doc='attributes of `other` read by `Code.__eq__` (in order of first use)'))
+    out.append(lean_table('pydEqSchemesUsed', 'List String', [_s(a) for a in dict.fromkeys(schemes)],
+                          doc='keys of `snomed_mapping` consulted by `Code.__eq__`'))
+    ne = find_func(tree, 'Code.__ne__')
+    nb = strip_doc(ne.body)
+    if len(nb) != 1 or ''.join(ast.unparse(nb[0]).split()) not in ('returnnot(self==other)', 'returnnotself==other'):
+        raise Unsupported('pydicom Code.__ne__ is no longer `not (self == other)`')
+    out.append('/-- pydicom `Code.__ne__` is `not (self == other)` -/\ndef pydNeNegatesEq : Bool := true')
+    hs = find_func(tree, 'Code.__hash__')
+    hb = strip_doc(hs.body)
+    if len(hb) != 1 or not isinstance(hb[0], ast.Return) or not (isinstance(hb[0].value, ast.Call) and ast.unparse(hb[0].value.func) == 'hash'
+                                                                 and len(hb[0].value.args) == 1):
+        raise Unsupported('pydicom Code.__hash__ is no longer return hash(<expr>)')
+
+    def concat(n):
+        if isinstance(n, ast.BinOp) and isinstance(n.op, ast.Add):
+            return concat(n.left) + concat(n.right)
+        return [_self_prop(n, 'pydicom __hash__ operand')]
+    out.append(lean_table('pydHashArgs', 'List String', [_s(a) for a in concat(hb[0].value.args[0])],
+                          doc='pydicom `Code.__hash__`: fields concatenated inside `hash(...)`'))
+    # field order of the named tuple (positional construction `Code(a, b, c, d)` / `cls(*code)`)
+    cls = [n for n in tree.body if isinstance(n, ast.ClassDef) and n.name == 'Code'][0]
+    fields = [st.target.id for st in cls.body if isinstance(st, ast.AnnAssign) and isinstance(st.target, ast.Name)]
+    out.append(lean_table('pydCodeFields', 'List String', [_s(a) for a in fields], doc='field order of the `Code` named tuple'))
+    import hashlib
+    return '\n\n'.join(out), hashlib.sha256((span_sha(body) + span_sha(nb) + span_sha(hb) + ','.join(fields)).encode()).hexdigest()
+
+
+def build_T17m(_tree):
+    """the retired-scheme tables of `pydicom.sr._snomed_dict.mapping` that `Code.__eq__` consults, as Lean data"""
+    import os
+    import hashlib
+    d = _pydicom_dir()
+    ctree = ast.parse(open(os.path.join(d, 'coding.py')).read())
+    eq = find_func(ctree, 'Code.__eq__')
+    used = []
+    for n in ast.walk(eq):
+        if isinstance(n, ast.Subscript) and ast.unparse(n.value) == 'snomed_mapping' and isinstance(n.slice, ast.Constant):
+            if n.slice.value not in used:
+                used.append(n.slice.value)
+    mtree = ast.parse(open(os.path.join(d, '_snomed_dict.py')).read())
+    mapping = None
+    for st in mtree.body:
+        tgt = st.targets[0] if isinstance(st, ast.Assign) else (st.target if isinstance(st, ast.AnnAssign) else None)
+        if tgt is None or getattr(st, 'value', None) is None:
+            continue
+        if isinstance(tgt, ast.Name) and tgt.id == 'mapping':
+            mapping = ast.literal_eval(st.value)
+        elif isinstance(tgt, ast.Subscript) and ast.unparse(tgt.value) == 'mapping' and isinstance(tgt.slice, ast.Constant) \
+                and isinstance(mapping, dict):
+            mapping[tgt.slice.value] = ast.literal_eval(st.value)
+        elif 'mapping' in ast.unparse(tgt):
+            raise Unsupported('unexpected assignment to mapping in _snomed_dict.py: ' + ast.unparse(tgt)[:60])
+    if not isinstance(mapping, dict):
+        raise Unsupported('pydicom.sr._snomed_dict.mapping not found as a literal dictionary')
+    out = []
+    tabs = []
+    h = hashlib.sha256()
+    for s in used:
+        if s not in mapping:
+            raise Unsupported(f'snomed_mapping has no key {s}')
+        items = list(mapping[s].items())
+        names = []
+        for i in range(0, len(items), 200):
+            nm = f'snomed{s}Chunk{i // 200}'
+            names.append(nm)
+            out.append(f'def {nm} : List (String × String) :=\n  [' + ',\n   '.join(f'({_s(k)}, {_s(v)})' for k, v in items[i:i + 200]) + ']')
+        out.append(f'/-- `snomed_mapping[{s!r}]` ({len(items)} entries) -/\ndef snomed{s} : List (String × String) := List.flatten [' + ', '.join(names) + ']')
+        tabs.append(f'({_s(s)}, snomed{s})')
+        for k, v in items:
+            h.update(f'{s}|{k}|{v}\n'.encode())
+    out.append('/-- the tables `Code.__eq__` consults, by key of `snomed_mapping` -/\n'
+               'def snomedTables : List (String × List (String × String)) := [' + ', '.join(tabs) + ']')
+    return '\n\n'.join(out), h.hexdigest()
+
+
+TARGETS['T17p'] = {'file': 'sr/coding.py', 'build': build_T17p}
+TARGETS['T17m'] = {'file': 'sr/coding.py', 'build': build_T17m}
